@@ -339,6 +339,14 @@ fn fuzz_once(b: &Vec<u8>) -> (String, u64) {
     if let Ok(d) = &dt {
         let _ = d.to_string();
         let _ = format!("{d:?}");
+        // what the standalone parser returned, fed back through the serde tunnel at every date-time kind
+        let v = toml::Value::Datetime(d.clone());
+        let _ = v.clone().try_into::<toml_datetime::Datetime>().map(|x| x.to_string());
+        let _ = v.clone().try_into::<toml_datetime::Date>().map_err(|e| e.to_string());
+        let _ = v.clone().try_into::<toml_datetime::Time>().map_err(|e| e.to_string());
+        let _ = v.clone().try_into::<String>().map_err(|e| e.to_string());
+        let _ = toml::Value::try_from(d.clone()).map(|x| x.to_string());
+        let _ = v.to_string();
     }
     // serde front ends
     let tv = toml::from_str::<toml::Value>(s);
